@@ -12,6 +12,7 @@ import scipy
 
 from ....core.implementations import implementation
 from ....core.units import cm2int
+from ....core.managers import energy_units
 
 from ...hilbertspace.hamiltonian import Hamiltonian
 from ...liouvillespace.systembathinteraction import SystemBathInteraction
@@ -76,6 +77,12 @@ class TDRedfieldRateMatrix(TimeDependent):
         """ Reference implementation, completely in Python
         
         """
+        # everything below works with values in internal units
+        with energy_units("int"):
+            self._set_rates_int(ham,sbi)
+            
+            
+    def _set_rates_int(self,ham,sbi):
         
         # dimension of the Hamiltonian (includes excitons
         # with all multiplicities specified at its creation)
